@@ -138,34 +138,36 @@ pub fn site_id() -> ss::ValueId { unimplemented!() }
 
 // The wrappers' last line restates the function's last line (`Some(LiteralSynOutcome::Value { id, value: ss::Value::Lit(lit), ty })`);
 // what is extracted and verified is the arm block between `let (lit, ty) =` and `;`.
-pub fn syn_integer_site(i: &IntegerLiteral) -> (r: Option<LiteralSynOutcome>)
+pub fn syn_integer_site($syn_int.0: &IntegerLiteral) -> (r: Option<LiteralSynOutcome>)
     ensures
         // [SYN-INT-RANGE] an unannotated integer literal is an Int64: it is rejected exactly when outside [-2^63, 2^63 - 1]
-        (r matches Some(LiteralSynOutcome::Error(_))) <==> !(lo(IntegerType::Int64) <= mval(*i) <= hi(IntegerType::Int64)),
+        (r matches Some(LiteralSynOutcome::Error(_))) <==> !(lo(IntegerType::Int64) <= mval(*$syn_int.0) <= hi(IntegerType::Int64)),
         // [SYN-INT-EXACT] when accepted: carried as Int64, exactly the literal's value, at the Int64 primitive type; never silently dropped
-        lo(IntegerType::Int64) <= mval(*i) <= hi(IntegerType::Int64) ==>
+        lo(IntegerType::Int64) <= mval(*$syn_int.0) <= hi(IntegerType::Int64) ==>
             (r matches Some(LiteralSynOutcome::Value { value: ss::Value::Lit(Literal::Integer(l)), ty, .. })
-                && mval(l) == mval(*i) && mtype(l) == Some(IntegerType::Int64) && ty == prim_ty(PrimitiveType::Integer(IntegerType::Int64))),
+                && mval(l) == mval(*$syn_int.0) && mtype(l) == Some(IntegerType::Int64) && ty == prim_ty(PrimitiveType::Integer(IntegerType::Int64))),
         // [SYN-INT-ERROR] the diagnostic names the exact value and the type it does not fit
         r matches Some(LiteralSynOutcome::Error(e)) ==>
-            (e matches check::TyckError::IntegerLiteralOutOfRange { value, integer_type } && value as int == mval(*i) && integer_type is Int64),
+            (e matches check::TyckError::IntegerLiteralOutOfRange { value, integer_type } && value as int == mval(*$syn_int.0) && integer_type is Int64),
 {
     let (lit, ty) =
-/*@arm lang/statics/src/query.rs :: fn literal_syn_judgment :: arm /Literal..Integer\(i\)/
+/*@arm lang/statics/src/query.rs :: fn literal_syn_judgment :: arm /Literal..Integer\(\w+\)/
+   bind syn_int
 @*/
     ;
     Some(LiteralSynOutcome::Value { id: site_id(), value: ss::Value::Lit(lit), ty })
 }
 
-pub fn syn_float_site(value: &FloatLiteral) -> (r: Option<LiteralSynOutcome>)
+pub fn syn_float_site(lit_in: &FloatLiteral) -> (r: Option<LiteralSynOutcome>)
     ensures
         // [SYN-FLOAT] an unannotated float literal is a Float64: always accepted, bits preserved, at the Float64 primitive type
         r matches Some(LiteralSynOutcome::Value { value: ss::Value::Lit(Literal::Float(l)), ty, .. })
-            && l == FloatLiteral::Float64(bits_of(f64_of(*value))) && ty == prim_ty(PrimitiveType::Float(FloatType::Float64)),
+            && l == FloatLiteral::Float64(bits_of(f64_of(*lit_in))) && ty == prim_ty(PrimitiveType::Float(FloatType::Float64)),
 {
-    let value = *value;
+    let $syn_float.0 = *lit_in;
     let (lit, ty) =
-/*@arm lang/statics/src/query.rs :: fn literal_syn_judgment :: arm /Literal..Float\(value\)/
+/*@arm lang/statics/src/query.rs :: fn literal_syn_judgment :: arm /Literal..Float\(\w+\)/
+   bind syn_float
 @*/
     ;
     Some(LiteralSynOutcome::Value { id: site_id(), value: ss::Value::Lit(lit), ty })
@@ -182,51 +184,53 @@ pub open spec fn ann_float(a: AnnId) -> Option<(ss::TypeId, FloatType)> {
 }
 pub open spec fn ann_type(a: AnnId) -> Option<ss::TypeId> { match a { AnnId::Type(ty) => Some(ty), _ => None } }
 impl Site {
-    pub fn ana_integer_site(&self, tycker: &mut Tycker, annotation: AnnId, i: IntegerLiteral) -> (r: ResultKont<(Lit, ss::TypeId)>)
+    pub fn ana_integer_site(&self, tycker: &mut Tycker, annotation: AnnId, $ana_int.0: IntegerLiteral) -> (r: ResultKont<(Lit, ss::TypeId)>)
         ensures
             // [ANA-INT-RANGE] checked against an integer primitive type t: accepted exactly inside t's range, carried at t with its exact
             // value, at the annotated type
             ann_int(annotation) matches Some((ty, t)) ==>
-                ((r is Ok <==> lo(t) <= mval(i) <= hi(t))
-                 && (r matches Ok((Literal::Integer(l), rty)) ==> mval(l) == mval(i) && mtype(l) == Some(t) && rty == ty)),
+                ((r is Ok <==> lo(t) <= mval($ana_int.0) <= hi(t))
+                 && (r matches Ok((Literal::Integer(l), rty)) ==> mval(l) == mval($ana_int.0) && mtype(l) == Some(t) && rty == ty)),
             // [ANA-INT-DEFAULT] checked against any other type: treated as an Int64 literal (whose type must join with the annotation)
             ann_type(annotation) matches Some(ty) ==> (ann_int(annotation) is None ==>
-                ((r is Ok ==> lo(IntegerType::Int64) <= mval(i) <= hi(IntegerType::Int64))
-                 && (r matches Ok((Literal::Integer(l), rty)) ==> mval(l) == mval(i) && mtype(l) == Some(IntegerType::Int64)
+                ((r is Ok ==> lo(IntegerType::Int64) <= mval($ana_int.0) <= hi(IntegerType::Int64))
+                 && (r matches Ok((Literal::Integer(l), rty)) ==> mval(l) == mval($ana_int.0) && mtype(l) == Some(IntegerType::Int64)
                      && rty == lub_of(prim_ty(PrimitiveType::Integer(IntegerType::Int64)), ty)))),
             // [ANA-SORT] a kind or sort annotation is an error
             ann_type(annotation) is None ==> r is Err,
             r is Ok ==> r->Ok_0.0 is Integer,
             // [ANA-INT-ERROR] a rejected literal is reported with its exact value and the type it does not fit
-            ann_int(annotation) matches Some((ty, t)) ==> (!(lo(t) <= mval(i) <= hi(t)) ==>
+            ann_int(annotation) matches Some((ty, t)) ==> (!(lo(t) <= mval($ana_int.0) <= hi(t)) ==>
                 final(tycker).errors@.len() > 0 && (final(tycker).errors@.last() matches check::TyckError::IntegerLiteralOutOfRange { value, integer_type }
-                    && value as int == mval(i) && integer_type == t)),
+                    && value as int == mval($ana_int.0) && integer_type == t)),
     {
         let switch = Switch::Ana(annotation);
         let (lit, ty) =
-/*@arm lang/statics/src/check/mod.rs :: impl Tyck<'a> for TyEnvT<su::TermId> :: fn tyck_inner_k :: arm /Lit::Integer\(i\)/
+/*@arm lang/statics/src/check/mod.rs :: impl Tyck<'a> for TyEnvT<su::TermId> :: fn tyck_inner_k :: arm /Lit::Integer\(\w+\)/
+   bind ana_int
 @*/
         ;
         Ok((lit, ty))
     }
-    pub fn ana_float_site(&self, tycker: &mut Tycker, annotation: AnnId, value: FloatLiteral) -> (r: ResultKont<(Lit, ss::TypeId)>)
+    pub fn ana_float_site(&self, tycker: &mut Tycker, annotation: AnnId, $ana_float.0: FloatLiteral) -> (r: ResultKont<(Lit, ss::TypeId)>)
         ensures
             // [ANA-FLOAT-RANGE] checked against Float64: always accepted with its bits; against Float32: accepted exactly when it fits binary32,
             // carried as the correctly rounded binary32; at the annotated type
             ann_float(annotation) matches Some((ty, t)) ==>
-                ((r is Ok <==> (t is Float64 || fits_f32(value)))
+                ((r is Ok <==> (t is Float64 || fits_f32($ana_float.0)))
                  && (r matches Ok((Literal::Float(l), rty)) ==> rty == ty
-                     && l == (if t is Float64 { FloatLiteral::Float64(bits_of(f64_of(value))) } else { FloatLiteral::Float32(narrowed_bits(value)) }))),
+                     && l == (if t is Float64 { FloatLiteral::Float64(bits_of(f64_of($ana_float.0))) } else { FloatLiteral::Float32(narrowed_bits($ana_float.0)) }))),
             // [ANA-FLOAT-DEFAULT] checked against any other type: a Float64 with its bits
             ann_type(annotation) is Some ==> (ann_float(annotation) is None ==>
-                (r matches Ok((Literal::Float(l), rty)) ==> l == FloatLiteral::Float64(bits_of(f64_of(value))))),
+                (r matches Ok((Literal::Float(l), rty)) ==> l == FloatLiteral::Float64(bits_of(f64_of($ana_float.0))))),
             // [ANA-FLOAT-SORT]
             ann_type(annotation) is None ==> r is Err,
             r is Ok ==> r->Ok_0.0 is Float,
     {
         let switch = Switch::Ana(annotation);
         let (lit, ty) =
-/*@arm lang/statics/src/check/mod.rs :: impl Tyck<'a> for TyEnvT<su::TermId> :: fn tyck_inner_k :: arm /Lit::Float\(value\)/
+/*@arm lang/statics/src/check/mod.rs :: impl Tyck<'a> for TyEnvT<su::TermId> :: fn tyck_inner_k :: arm /Lit::Float\(\w+\)/
+   bind ana_float
 @*/
         ;
         Ok((lit, ty))
